@@ -363,6 +363,14 @@ func EncodePSV0(info PSVInfo) []byte {
 		sigPatchElements = 0
 		sigInputVectors = 0
 		sigOutputVectors = 0
+	} else {
+		// Same self-consistency for a partial list (e.g. an input with no
+		// PSV element, such as @builtin(barycentric)): the walker reads
+		// exactly the declared number of entries, so declare what is written.
+		// Patch-constant / primitive elements are never written.
+		sigInputElements = uint8(numSigInputs)   //nolint:gosec // bounded by the caller's uint8 counts
+		sigOutputElements = uint8(numSigOutputs) //nolint:gosec // bounded by the caller's uint8 counts
+		sigPatchElements = 0
 	}
 	out[pos+28] = sigInputElements
 	out[pos+29] = sigOutputElements
